@@ -45,7 +45,8 @@ Definition step (s : st) (r : list Z) : option st :=
     let initial := Z.testbit hf 1 in
     if (e =? 1) && initial && (size <? 1200) && ((out =? 2) || (out =? 3)) then None
     (* a stateless response is strictly smaller than what provoked it *)
-    else if (out =? 3) && negb (fld r 7 <? size) then None
+    (* provoked by a short-header datagram: a stateless reset *)
+    else if (out =? 3) && Z.testbit hf 5 && negb (fld r 7 <? size) then None
     else if (out =? 1) || (out =? 2) then
       let idx := fld r 6 in
       let k := (e, idx, src) in
